@@ -17,7 +17,8 @@ RULE = ('roundtrip units: random lists of 0..8 (key,value) pairs, keys non-empty
         'through a handler behind Ombott.__call__. totality units: every string of length<=N over {a,=,&,%,+,2} fed to parse_qsl in '
         'all three of its output modes under a step budget, plus random junk incl. lone surrogates-free Unicode. Non-trivial = '
         'the pair list has a repeated key or a character that needs escaping; distinct = distinct encoded string.')
-REQUIRED = ['query_replaced_after_a_first_read', 'body_consumed_before_forms', 'roundtrips_query', 'roundtrips_forms', 'roundtrips_params', 'repeated_key_cases', 'list_values_seen',
+PYOPT = {'quick': 1, 'thorough': 1}     # one unit of every kind is also served by an interpreter started with -O (assert statements compiled out)
+REQUIRED = ['units_run_under_python_-O', 'query_replaced_after_a_first_read', 'body_consumed_before_forms', 'roundtrips_query', 'roundtrips_forms', 'roundtrips_params', 'repeated_key_cases', 'list_values_seen',
             'totality_strings', 'via_wsgi', 'chunked_forms']
 EXHAUSTIVE = {'quick': False, 'thorough': False,
               'quick_note': 'totality sweep is complete for all strings of length<=6 over {a,=,&,%,+,2}',
